@@ -57,9 +57,11 @@ fn validate_config_file(config_path: &Path, no_extends: bool) -> Result<()> {
         )));
     }
 
-    // Phase 1: Direct parse for better syntax error messages
+    // Phase 1: Direct parse for better syntax error messages. Only the syntax is judged here:
+    // a file may hold `$reset` markers (rule tables without their otherwise required fields),
+    // which the loader of phase 2 validates and strips exactly as `check` does.
     let content = fs::read_to_string(config_path)?;
-    let _: Config = toml::from_str(&content)?;
+    let _: toml::Value = toml::from_str(&content)?;
 
     // Phase 2: Full load with extends chain and semantic validation
     super::context::load_config(Some(config_path), false, no_extends, FetchPolicy::Normal)?;
